@@ -1034,6 +1034,24 @@ Proof.
   destruct ((off <=? i) && (i <? off + olen)); [reflexivity|apply L4; exact Hi].
 Qed.
 
+(* a region that was just handed out is given back: the state is good again and every block is as before *)
+Lemma release_allocated_good : forall s s1 off n, Good s -> allocated_from s s1 off n ->
+  Good (snd (blk_deallocate s1 off n)) /\ same_cfg s (snd (blk_deallocate s1 off n)).
+Proof.
+  intros s s1 off n Hg Ha. pose proof Ha as (I1 & C1 & A1 & A2 & A3 & A4 & A5).
+  assert (Hg1 : Good s1) by (apply (good_cfg s); assumption).
+  pose proof C1 as (V1 & V2 & V3 & V4 & V5 & V6 & V7).
+  assert (Hl1 : len_z (bm s) = nbits s) by (destruct Hg as (Hi & _); apply (inv_len s Hi)).
+  assert (Hlive : live_range s1 off n).
+  { split; [exact A1|]. split; [exact A2|]. split; [unfold nbits in *; rewrite V4; exact A3|].
+    intros i Hi. rewrite A5. rewrite getb_set_range by lia.
+    replace ((off <=? i) && (i <? off + n)) with true; [reflexivity|].
+    symmetry. apply andb_true_iff. split; [apply Z.leb_le|apply Z.ltb_lt]; lia. }
+  pose proof (blk_deallocate_good s1 off n Hg1 Hlive) as H.
+  destruct (blk_deallocate s1 off n) as [rc s2]. destruct H as (_ & G2 & C2 & _). simpl.
+  split; [exact G2|eapply same_cfg_trans; eassumption].
+Qed.
+
 (* ---- _fsm_reallocate *)
 Theorem reallocate_good : forall s nlen addr olen opts ovr, Good s -> has opts IWFSM_ALLOC_NO_EXTEND = true ->
   0 <= nlen < 2 ^ 62 -> live_range s (blk_of s addr) (blk_of s olen) ->
@@ -1043,6 +1061,7 @@ Proof.
   destruct (negb (Z.land addr (blkmask s) =? 0) || negb (Z.land olen (blkmask s) =? 0)); [split; [exact Hg|apply same_cfg_refl]|].
   set (nb := shr (IW_ROUNDUP nlen (pow2 (bpow s))) (bpow s)).
   set (ob := blk_of s olen) in *. set (ab := blk_of s addr) in *.
+  destruct (fx_recheck (vr s) && (nlen <? 0)); [split; [exact Hg|apply same_cfg_refl]|].
   destruct (nb =? ob) eqn:Eq; [split; [exact Hg|apply same_cfg_refl]|].
   destruct (fx_realloc (vr s) && (ob <? 1)); [split; [exact Hg|apply same_cfg_refl]|].
   destruct (fx_realloc (vr s) && touches_meta s ab ob); [split; [exact Hg|apply same_cfg_refl]|].
@@ -1059,6 +1078,8 @@ Proof.
     simpl. split; assumption.
   - apply Z.ltb_ge in Elt. apply Z.eqb_neq in Eq.
     assert (Hpos : 0 < nb) by (destruct Hl as (_ & L2 & _); lia).
+    destruct (negb ((if fx_recheck (vr s) then fst (set_bit_status s ab ob false true (strict s)) else 0) =? 0));
+      [split; [exact Hg|apply same_cfg_refl]|].
     pose proof (blk_allocate_noext s nb ab opts ovr Hi Hwf Hpos Hne) as H.
     destruct (blk_allocate s nb ab opts ovr) as [[[rc s1] naddr] sp]. unfold alloc_outcome in H.
     destruct H as [[[-> | ->] ->]|(Hrc & Ha & _)].
@@ -1066,8 +1087,11 @@ Proof.
     + simpl. split; [exact Hg|apply same_cfg_refl].
     + destruct (negb (rc =? 0)) eqn:Erc.
       * simpl. destruct Ha as (I & C & _). split; [apply (good_cfg s); assumption|exact C].
-      * destruct (negb (naddr =? ab) && negb (ensure_ok s1 (shl naddr (bpow s) + uw 64 olen))).
-        { simpl. destruct Ha as (I & C & _). split; [apply (good_cfg s); assumption|exact C]. }
+      * destruct (fx_recheck (vr s) && negb (IW_RANGES_OVERLAP ab (ab + ob) (shr (bmoff s1) (bpow s)) (shr (bmoff s1) (bpow s) + shr (bmlen s1) (bpow s)) =? 0)).
+        { simpl. apply (release_allocated_good s s1 naddr sp Hg Ha). }
+        destruct (negb (naddr =? ab) && negb (ensure_ok s1 (shl naddr (bpow s) + uw 64 olen))).
+        { simpl. destruct (fx_recheck (vr s)); [apply (release_allocated_good s s1 naddr sp Hg Ha)|].
+          destruct Ha as (I & C & _). split; [apply (good_cfg s); assumption|exact C]. }
         set (s1' := if negb (naddr =? ab) then ensure_size s1 (shl naddr (bpow s) + uw 64 olen) else s1).
         assert (Ha' : allocated_from s s1' naddr sp).
         { unfold s1'. destruct (negb (naddr =? ab)); [apply allocated_from_ensure|]; exact Ha. }
@@ -1094,7 +1118,7 @@ Proof.
   rewrite Ec1, Ec2.
   set (s0 := mkFsm (bm s) [] 0 0 (bmoff s) (bmlen s) (hdrlen s) (bpow s) (aunit s) (fsize s) (p_crzsum s) (p_crznum s)
                    (p_crzsum s) (p_crznum s) (bmoff s) (bmlen s) (maxoff s) st (mkVariant (fx_lfbk (vr s)) (fx_strict (vr s)) (fx_sync (vr s)) (fx_short (vr s))
-                   (fx_realloc (vr s)) (fx_hint (vr s)) (fx_leak (vr s)) mm)).
+                   (fx_realloc (vr s)) (fx_hint (vr s)) (fx_leak (vr s)) (fx_recheck (vr s)) mm)).
   destruct (load_fsm_spec s0 Hlen Hu32) as (F & S & M & L).
   pose proof (frame_same_cfg _ _ F) as (C1 & C2 & C3 & C4 & _). destruct F as (B1 & _).
   split; [|split].
@@ -1166,10 +1190,12 @@ Proof.
   apply all_range_spec; [lia|lia|lia|exact H5].
 Qed.
 
-Definition v_current : variant := mkVariant false false false false false false false false.
-Definition v_fixed : variant := mkVariant true true true true true true true false.
+Definition v_current : variant := mkVariant false false false false false false false false false.
+Definition v_fixed : variant := mkVariant true true true true true true true true false.
 (* /repo at the time of the deepening round: the four fixes of the earlier rounds committed, the three of this round not yet *)
-Definition v_head : variant := mkVariant true true true true false false false false.
+Definition v_head : variant := mkVariant true true true true false false false false false.
+(* /repo in round 7: the three fixes of the deepening round committed (03fe895 ed23db4 cd47e17), fsm-realloc-recheck.diff not yet *)
+Definition v_head7 : variant := mkVariant true true true true true true true false false.
 Definition fresh (v : variant) (strict' : bool) : fsm := snd (open_new v 6 0 0 strict').
 (* six 4-block regions, then exactly the free tail (which is the cached extent), then two adjacent releases *)
 Definition lfbk_witness : list op :=
@@ -1290,7 +1316,7 @@ Proof.
   apply hs_iff in Hc. destruct Hc as [Ec1 Ec2]. rewrite Ec1, Ec2.
   set (s0 := mkFsm (bm s) [] 0 0 (bmoff s) (bmlen s) (hdrlen s) (bpow s) (aunit s) (fsize s) (p_crzsum s) (p_crznum s)
                    (p_crzsum s) (p_crznum s) (bmoff s) (bmlen s) (maxoff s) st (mkVariant (fx_lfbk (vr s)) (fx_strict (vr s)) (fx_sync (vr s)) (fx_short (vr s))
-                   (fx_realloc (vr s)) (fx_hint (vr s)) (fx_leak (vr s)) mm)).
+                   (fx_realloc (vr s)) (fx_hint (vr s)) (fx_leak (vr s)) (fx_recheck (vr s)) mm)).
   destruct (load_fsm_spec s0 Hlen Hu32) as (F & _ & M & _). destruct F as (B1 & B2 & B3 & B4 & B5 & _).
   split; [exact B1|]. split; [exact B2|]. split; [exact B3|]. split; [exact B4|]. split; [exact B5|]. exact M.
 Qed.
